@@ -85,6 +85,10 @@ type Event struct {
 	OK   bool
 	Addr string
 	Type string
+	// Enter events: who called
+	Caller     int
+	CallerLine int
+	CallKind   string
 }
 
 func parseIDs(s string) []int {
@@ -132,6 +136,11 @@ func ParseEvents(data string) []Event {
 			}
 		case "E", "M":
 			ev.ID, _ = strconv.Atoi(f[1])
+			if len(f) >= 5 {
+				ev.Caller, _ = strconv.Atoi(f[2])
+				ev.CallerLine, _ = strconv.Atoi(f[3])
+				ev.CallKind = f[4]
+			}
 		case "P":
 			ev.ID, _ = strconv.Atoi(f[1])
 			if len(f) > 2 {
